@@ -40,7 +40,8 @@ CallsOf(un) ==
   IF un = "numeq" THEN [name : {"uniq", "sort", "compact", "reverse"}, arg : {"none"}, then : {"none", "size", "join", "uniq"}] ELSE
   IF un = "mapsz" THEN [name : {"map"}, arg : {"k", "ksz"}, then : {"none", "compact", "join"}] \cup [name : {"sort"}, arg : {"k", "ksz"}, then : {"none"}] ELSE
   [name : Single, arg : {"none"}, then : {"none"}]
-  \cup [name : {"join"}, arg : {"comma"}, then : {"none"}]
+  \* (a separator of two characters; the empty separator: the items one after the other, not the default blank)
+  \cup [name : {"join"}, arg : {"comma", "nosep", "sep2"}, then : {"none"}]
   \cup [name : {"concat"}, arg : {"other", "empty"}, then : {"none"}]
   \* two applications to the same receiver (also to a filtered copy of it) with different arguments: they must not share storage
   \cup [name : {"concat"}, arg : {"other"}, then : {"again", "again-compact"}]
@@ -55,6 +56,8 @@ Next == UNCHANGED vars
 arr == [i \in 1..Len(ix) |-> Elems(u)[ix[i]]]
 ArgVals == CASE call.arg = "none" -> <<>>
              [] call.arg = "comma" -> <<Str(<<44>>)>>
+             [] call.arg = "nosep" -> <<Str(<<>>)>>
+             [] call.arg = "sep2" -> <<Str(<<44, 32>>)>>
              [] call.arg = "other" -> <<Arr(<<IntV(9)>>)>>
              [] call.arg = "empty" -> <<Arr(<<>>)>>
              [] call.arg = "k" -> <<Str(KK)>>
@@ -153,7 +156,7 @@ PipedV == [t |-> "filter", e |-> V(A), name |-> call.name, args |-> <<V(ArgV)>>]
 ProgV == (IF Scalar THEN <<Ob(PipedV)>>
           ELSE IF OneElem THEN <<[t |-> "assign", name |-> RR, e |-> PipedV]>> \o ResProbe(RR)
           ELSE <<[t |-> "assign", name |-> RR, e |-> PipedV], Each(RR)>>) \o <<T(<<35>>)>> \o <<Each(A)>>
-ArgHints == CASE call.arg \in {"comma", "k", "ksz"} -> <<"drop", "ptr", "dropdrop">>
+ArgHints == CASE call.arg \in {"comma", "nosep", "sep2", "k", "ksz"} -> <<"drop", "ptr", "dropdrop">>
               [] call.arg = "other" -> <<"ints", "drop", "range", "int64s", "ptr">>
               [] call.arg = "empty" -> <<"nilslice", "drop", "range">>
               [] OTHER -> <<"drop">>
